@@ -1,4 +1,199 @@
-(* C09 — statements are being added; see DESIGN.md section 7. *)
-From XSG.Model Require Import Strings.
-Example C09_placeholder : True. Proof. exact I. Qed.
-Print Assumptions C09_placeholder.
+(* C09 — Field order follows the document, or the XML name when sorting is requested.
+   Renderer part: in every struct the fields are attributes, then text, then children; with
+   sort-by-name attributes and children are each ordered by XML name; unsorted, attributes are
+   in the internal attribute order and children in `position` order; struct definitions follow
+   a pre-order walk in field order; switching Options::sort changes nothing but these orders.
+   (That the internal attribute order and `position` are the order of first appearance in the
+   documents is the parser part, stated below this block by the document-level theorems.)
+   Only statements; every proof is `exact <lemma of Proofs/OrderProofs.v>`.
+   Vocabulary (Proofs/RenderProofs.v, Proofs/OrderProofs.v):
+     is_attr f / is_child f     f_kind f is FAttr / FChild
+     head_struct o tbl e pth    the struct of node e itself (attr_field, text_fields, child_field
+                                are the record expressions of Model/Render.v, named)
+     sorted_attrs o e           eattrs e, or isort by XML name when sort o = XmlName
+     sorted_children o e        isort by_pos / by_name (echildren e) according to sort o
+     subnode x e                x is e or a descendant of e
+     SameUpToOrder l1 l2        l1 can be rearranged to match l2 struct by struct, matching
+                                structs having the same derive, name and a Permutation of fields *)
+From Coq Require Import String Permutation Sorted.
+From XSG.Model Require Import Strings Necessity Element Render.
+From XSG.Proofs Require Import ElementProofs RenderProofs OrderProofs.
+Local Open Scope list_scope.
+
+(* ---- 1. attributes, then at most one text field, then children ---- *)
+Theorem C09_groups : forall o e,
+  Forall (fun d => exists a t c,
+            map f_kind (sd_fields d) = repeat FAttr a ++ repeat FText t ++ repeat FChild c
+            /\ (t <= 1)%nat)
+         (render_abs o e).
+Proof. exact render_groups. Qed.
+
+(* with the exact counts, for the struct of a given node *)
+Theorem C09_groups_head : forall o tbl e pth,
+  map f_kind (sd_fields (head_struct o tbl e pth))
+  = repeat FAttr (List.length (eattrs e))
+    ++ repeat FText (if etext e then 1 else 0)
+    ++ repeat FChild (List.length (echildren e)).
+Proof. exact head_groups. Qed.
+
+(* ---- 2. sort-by-name: both groups ascend in the XML name ---- *)
+Theorem C09_sorted_attrs : forall o e, sort o = XmlName ->
+  Forall (fun d => StronglySorted (fun a b => str_leb a b = true)
+                                  (map f_xml (filter is_attr (sd_fields d))))
+         (render_abs o e).
+Proof. exact render_sorted_attrs. Qed.
+
+Theorem C09_sorted_children : forall o e, sort o = XmlName ->
+  Forall (fun d => StronglySorted (fun a b => str_leb a b = true)
+                                  (map f_xml (filter is_child (sd_fields d))))
+         (render_abs o e).
+Proof. exact render_sorted_children. Qed.
+
+(* strictly, when names are unique under every parent (the invariant of C03/C16) *)
+Theorem C09_strictly_sorted_attrs : forall o e, sort o = XmlName -> Uniq e ->
+  Forall (fun d => StronglySorted (fun a b => str_ltb a b = true)
+                                  (map f_xml (filter is_attr (sd_fields d))))
+         (render_abs o e).
+Proof. exact render_strictly_sorted_attrs. Qed.
+
+Theorem C09_strictly_sorted_children : forall o e, sort o = XmlName -> Uniq e ->
+  Forall (fun d => StronglySorted (fun a b => str_ltb a b = true)
+                                  (map f_xml (filter is_child (sd_fields d))))
+         (render_abs o e).
+Proof. exact render_strictly_sorted_children. Qed.
+
+(* ---- 3. unsorted: internal attribute order, children by position ---- *)
+(* stated on the first struct of the rendering of a node (which is that node's struct) *)
+Theorem C09_unsorted_attrs : forall o tbl e pth d rest,
+  sort o = Unsorted -> render_abs_at o tbl e pth = d :: rest ->
+  map f_xml (filter is_attr (sd_fields d)) = map snd (eattrs e).
+Proof. exact render_at_unsorted_attrs. Qed.
+
+Theorem C09_unsorted_children : forall o tbl e pth d rest,
+  sort o = Unsorted -> render_abs_at o tbl e pth = d :: rest ->
+  map f_xml (filter is_child (sd_fields d))
+  = map (fun c => ename (snd c)) (isort by_pos (echildren e)).
+Proof. exact render_at_unsorted_children. Qed.
+
+(* every struct of the output belongs to a node for which both hold *)
+Theorem C09_unsorted_everywhere : forall o e, sort o = Unsorted ->
+  Forall (fun d => exists x, subnode x e
+            /\ map f_xml (filter is_attr (sd_fields d)) = map snd (eattrs x)
+            /\ map f_xml (filter is_child (sd_fields d))
+               = map (fun c => ename (snd c)) (isort by_pos (echildren x)))
+         (render_abs o e).
+Proof. exact render_unsorted_everywhere. Qed.
+
+(* what `isort by_pos` does: a rearrangement, ascending in position (None first), stable
+   (children whose positions tie keep their internal order), the identity when the positions
+   of the internal list already ascend *)
+Theorem C09_by_pos_sort_spec : forall l : list (nec * element),
+  Permutation l (isort by_pos l)
+  /\ StronglySorted (fun a b => by_pos a b = true) (isort by_pos l)
+  /\ (forall x, filter (fun y => by_pos x y && by_pos y x) (isort by_pos l)
+                = filter (fun y => by_pos x y && by_pos y x) l)
+  /\ (Sorted (fun a b => by_pos a b = true) l -> isort by_pos l = l).
+Proof. exact by_pos_sort_spec. Qed.
+
+(* ---- 4. structs follow a pre-order walk in field order ---- *)
+(* the node's own struct first, then for each child *in the order of the child fields*
+   (sorted_children o e indexes both) the rendering of that child, text-only children
+   contributing no struct *)
+Theorem C09_preorder : forall o tbl e pth,
+  render_abs_at o tbl e pth
+  = head_struct o tbl e pth
+    :: flat_map (fun c => if contains_only_text (snd c) then []
+                          else render_abs_at o tbl (snd c) (pth ++ [ename e]))
+                (sorted_children o e)
+  /\ sd_fields (head_struct o tbl e pth)
+     = map (attr_field o (id_new e)) (sorted_attrs o e)
+       ++ text_fields o (id_new e) e
+       ++ map (child_field tbl (id_new e) (pth ++ [ename e])) (sorted_children o e).
+Proof. exact render_preorder. Qed.
+
+Theorem C09_preorder_root : forall o e,
+  let tbl := compute_struct_names e (compute_name_hints e) in
+  render_abs o e
+  = head_struct o tbl e []
+    :: flat_map (fun c => if contains_only_text (snd c) then []
+                          else render_abs_at o tbl (snd c) [ename e])
+                (sorted_children o e).
+Proof. exact render_abs_preorder. Qed.
+
+(* ---- 5. switching the option changes nothing but the orders ---- *)
+Theorem C09_only_order : forall o1 o2 e,
+  text_identifier o1 = text_identifier o2 /\ attribute_prefix o1 = attribute_prefix o2
+  /\ derive o1 = derive o2 ->
+  exists l, Permutation (render_abs o1 e) l
+            /\ Forall2 (fun d1 d2 => sd_derive d1 = sd_derive d2 /\ sd_name d1 = sd_name d2
+                                     /\ Permutation (sd_fields d1) (sd_fields d2))
+                       l (render_abs o2 e).
+Proof. exact render_only_order. Qed.
+
+(* the root struct stays first *)
+Theorem C09_only_order_root_first : forall o1 o2 e,
+  text_identifier o1 = text_identifier o2 /\ attribute_prefix o1 = attribute_prefix o2
+  /\ derive o1 = derive o2 ->
+  exists d1 r1 d2 r2,
+    render_abs o1 e = d1 :: r1 /\ render_abs o2 e = d2 :: r2
+    /\ (sd_derive d1 = sd_derive d2 /\ sd_name d1 = sd_name d2
+        /\ Permutation (sd_fields d1) (sd_fields d2))
+    /\ SameUpToOrder r1 r2.
+Proof. exact render_only_order_head. Qed.
+
+(* the relation used above is an equivalence *)
+Theorem C09_same_up_to_order_equivalence :
+  (forall l, SameUpToOrder l l)
+  /\ (forall l1 l2, SameUpToOrder l1 l2 -> SameUpToOrder l2 l1)
+  /\ (forall l1 l2 l3, SameUpToOrder l1 l2 -> SameUpToOrder l2 l3 -> SameUpToOrder l1 l3).
+Proof. exact SUO_equivalence. Qed.
+
+(* ---- non-vacuity: <r b a>text<y/><x q p><k/></x><m/></r> with positions x=0, m=1, y=2 ---- *)
+Example C09_example_uniq : Uniq ex_tree.
+Proof. exact ex_tree_uniq. Qed.
+
+Example C09_example_unsorted :
+  sort quick_xml_de = Unsorted /\
+  map (fun d => map (fun f => (f_kind f, f_xml f)) (sd_fields d)) (render_abs quick_xml_de ex_tree)
+  = [ [(FAttr, s "b"); (FAttr, s "a"); (FText, s "text");
+       (FChild, s "x"); (FChild, s "m"); (FChild, s "y")];
+      [(FAttr, s "q"); (FAttr, s "p"); (FChild, s "k")] ].
+Proof. exact ex_unsorted_view. Qed.
+
+Example C09_example_sorted :
+  sort ex_sorted = XmlName /\
+  (text_identifier quick_xml_de = text_identifier ex_sorted
+   /\ attribute_prefix quick_xml_de = attribute_prefix ex_sorted
+   /\ derive quick_xml_de = derive ex_sorted) /\
+  map (fun d => map (fun f => (f_kind f, f_xml f)) (sd_fields d)) (render_abs ex_sorted ex_tree)
+  = [ [(FAttr, s "a"); (FAttr, s "b"); (FText, s "text");
+       (FChild, s "m"); (FChild, s "x"); (FChild, s "y")];
+      [(FAttr, s "p"); (FAttr, s "q"); (FChild, s "k")] ].
+Proof. exact ex_sorted_view. Qed.
+
+(* the struct blocks move with the child fields, and the two outputs do differ *)
+Example C09_example_preorder :
+  map sd_name (render_abs quick_xml_de ex_tree2) = [s "R"; s "Z"; s "C"] /\
+  map sd_name (render_abs ex_sorted ex_tree2) = [s "R"; s "C"; s "Z"] /\
+  render_abs quick_xml_de ex_tree2 <> render_abs ex_sorted ex_tree2.
+Proof. exact ex_preorder_view. Qed.
+
+Print Assumptions C09_groups.
+Print Assumptions C09_groups_head.
+Print Assumptions C09_sorted_attrs.
+Print Assumptions C09_sorted_children.
+Print Assumptions C09_strictly_sorted_attrs.
+Print Assumptions C09_strictly_sorted_children.
+Print Assumptions C09_unsorted_attrs.
+Print Assumptions C09_unsorted_children.
+Print Assumptions C09_unsorted_everywhere.
+Print Assumptions C09_by_pos_sort_spec.
+Print Assumptions C09_preorder.
+Print Assumptions C09_preorder_root.
+Print Assumptions C09_only_order.
+Print Assumptions C09_only_order_root_first.
+Print Assumptions C09_same_up_to_order_equivalence.
+Print Assumptions C09_example_uniq.
+Print Assumptions C09_example_unsorted.
+Print Assumptions C09_example_sorted.
+Print Assumptions C09_example_preorder.
